@@ -29,13 +29,13 @@ OUTROOT = os.path.abspath(os.environ.get('VERIF_OUT', os.path.join(ROOT, 'out'))
 # per property: flavours and number of cases per tier  (flavour -> cases)
 BUDGET = {
     'C06': {'quick': {'plain': 120000, 'asan': 24000}, 'thorough': {'plain': 1200000, 'asan': 500000}},
-    'C08': {'quick': {'plain': 200000, 'asan': 16000}, 'thorough': {'plain': 3000000, 'asan': 300000}},
-    'C09': {'quick': {'plain': 200000, 'asan': 16000}, 'thorough': {'plain': 3000000, 'asan': 300000}},
-    'C10': {'quick': {'plain': 200000, 'asan': 16000}, 'thorough': {'plain': 3000000, 'asan': 300000}},
-    'C14': {'quick': {'plain': 16000, 'asan': 3000}, 'thorough': {'plain': 100000, 'asan': 20000}},
+    'C08': {'quick': {'plain': 500000, 'asan': 24000}, 'thorough': {'plain': 3000000, 'asan': 300000}},
+    'C09': {'quick': {'plain': 500000, 'asan': 24000}, 'thorough': {'plain': 3000000, 'asan': 300000}},
+    'C10': {'quick': {'plain': 500000, 'asan': 24000}, 'thorough': {'plain': 3000000, 'asan': 300000}},
+    'C14': {'quick': {'plain': 24000, 'asan': 4000}, 'thorough': {'plain': 100000, 'asan': 20000}},
     'C15': {'quick': {'plain': 16000, 'tsan': 3000, 'asan': 2000}, 'thorough': {'plain': 300000, 'tsan': 80000, 'asan': 30000}},
-    'C16': {'quick': {'plain': 16000, 'asan': 2500}, 'thorough': {'plain': 250000, 'asan': 40000}},
-    'C18': {'quick': {'plain': 300000, 'asan': 20000}, 'thorough': {'plain': 4000000, 'asan': 400000}},
+    'C16': {'quick': {'plain': 40000, 'asan': 4000}, 'thorough': {'plain': 250000, 'asan': 40000}},
+    'C18': {'quick': {'plain': 500000, 'asan': 24000}, 'thorough': {'plain': 4000000, 'asan': 400000}},
 }
 RANDOM_GRAMMAR_PROPS = ('C09', 'C10', 'C16')
 RANDOM_GRAMMARS_K = 16
